@@ -336,11 +336,3 @@ Proof.
     destruct (truthy (want c k Disown)), (truthy (want c k Asynchronous)), fails,
       (truthy (want c k Warn)); reflexivity.
 Qed.
-
-Lemma call_ok_model c parent command k :
-  call_ok c parent command k (o_started (run_model c parent command k)) = true.
-Proof.
-  unfold call_ok. destruct (rejected c k) as [e|] eqn:R.
-  - destruct (rejected_before_start c parent command k e R) as (_ & S & _). rewrite S. reflexivity.
-  - apply started_ok. exact R.
-Qed.
